@@ -178,7 +178,8 @@ class Renderer(object):
             return "{ " + self.body_items(x) + " }"
         if e == "call":
             f = self.p["funs"][x["fi"] - 1]
-            return "%s(%s)" % (self.nm(f.get("oname", f["name"])), ", ".join(self.ex(a) for a in x["args"]))
+            args = [self.ex(a) for a in x["args"]] + ["%s == %s" % (self.nm(k["p"]), self.ex(k["v"])) for k in x.get("kw", [])]
+            return "%s(%s)" % (self.nm(f.get("oname", f["name"])), ", ".join(args))
         if e == "callv":
             return "(%s)(%s)" % (self.ex(x["f"]), ", ".join(self.ex(a) for a in x["args"]))
         if e == "print":
@@ -414,7 +415,9 @@ class Renderer(object):
         texts = []
         for kind, i, f in forms:
             if kind == "fun":
-                ps = ", ".join("%s: %s" % (self.nm(a), tname(t)) for a, t in zip(f["ps"], f["pts"]))
+                dfl = f.get("defs") or [{"e": "none"}] * len(f["ps"])
+                ps = ", ".join("%s: %s%s" % (self.nm(a), tname(t), "" if dv.get("e") == "none" else " == %s" % self.ex(dv))
+                               for a, t, dv in zip(f["ps"], f["pts"], dfl))
                 texts.append(("f", i, "%s(%s): %s == { %s%s }" % (self.nm(f.get("oname", f["name"])), ps, tname(f["rt"]),
                                                                   self.free_decl(f["body"], f["ps"]), self.body_items(f["body"]))))
             elif f["d"] == "var":
